@@ -569,6 +569,19 @@ def refuses_includes(f, parent_p):
     return t.get("k") == "Call" and short(callee_of(t) or "") == "Err"
 
 
+def _resolve_named_cond(f, c):
+    """the condition itself, or - when it is a single boolean local - the expression that local was bound to"""
+    x = c
+    while x.get("k") in ("DropTemps", "Use"):
+        x = x["e"]
+    x = peel(x)
+    if x.get("k") == "Path" and x.get("res_kind") == "Local":
+        for st in walk(f["hir"]["value"], pats=False):
+            if st.get("k") == "Let" and st["pat"].get("k") == "PBinding" and st["pat"]["name"] == x["res"] and st.get("init") is not None:
+                return st["init"]
+    return c
+
+
 NORMALISERS = {"canonicalize", "to_lowercase", "to_uppercase", "to_ascii_lowercase", "read_link", "absolute", "normalize", "components"}
 
 
@@ -587,7 +600,17 @@ def _c15c_walk_details(F, R, f, name, guard, parent_p):
             cnd = peel_cond(iff.get("cond")) if iff.get("k") == "If" else None
             if cnd is not None and cnd.get("k") == "LetExpr" and peel(cnd["init"]).get("k") == "Path":
                 cur = peel(cnd["init"]).get("res")
-    if cur is None or cur not in lets:
+    gcond = _resolve_named_cond(f, guard["cond"])
+    succ = [sc_ for sc_ in walk(gcond, pats=False) if sc_.get("k") == "Call" and short(callee_of(sc_) or "") == "successors" and len(sc_["args"]) == 2]
+    if succ:
+        st0 = peel(succ[0]["args"][0])
+        while st0.get("k") == "MethodCall" and st0["name"] in ("clone", "copied", "cloned") and not st0["args"]:
+            st0 = peel(st0["recv"])
+        if st0.get("k") == "Path" and st0.get("res") == parent_p:
+            R.ok(f"{name}|walk-start", detail=f"successors({parent_p}, ..): the walk starts at the including file for every import", where=loc(succ[0]))
+        else:
+            R.bad(f"{name}|walk-start", f"the ancestry walk starts from `{ekey(st0)[:70]}`, not from the including file `{parent_p}`", loc(succ[0]))
+    elif cur is None or cur not in lets:
         R.bad(f"{name}|walk-start", f"UNEXTRACTABLE: the cursor of {name}'s ancestry walk is not a local with an initialiser", loc(guard))
     else:
         init = peel(lets[cur]["init"])
@@ -607,6 +630,11 @@ def _c15c_walk_details(F, R, f, name, guard, parent_p):
                     for g_ in walk(a_["r"], pats=False):
                         if g_.get("k") == "MethodCall" and g_["name"] in ("get", "get_mut") and ekey(g_["recv"]).startswith("self."):
                             chain_maps.add(ekey(g_["recv"]))
+    for sc_ in succ:
+        clb = peel(sc_["args"][1])
+        for g_ in walk(clb.get("body") or {}, pats=False):
+            if g_.get("k") == "MethodCall" and g_["name"] in ("get", "get_mut") and ekey(g_["recv"]).startswith("self."):
+                chain_maps.add(ekey(g_["recv"]))
     for mp in sorted(chain_maps):
         ins_ = [m_ for m_ in walk(body, pats=False) if m_.get("k") == "MethodCall" and m_["name"] == "insert" and ekey(m_["recv"]) == mp and len(m_["args"]) == 2]
         if ins_:
@@ -627,7 +655,7 @@ def _c15c_walk_details(F, R, f, name, guard, parent_p):
                 out |= norms(lets[m["res"]]["init"], depth + 1, seen)
         return out
 
-    c = guard["cond"]
+    c = gcond
     sites = 0
     for n in walk(c, pats=False):
         if n.get("k") == "Binary" and n["op"] in ("Eq", "Ne"):
@@ -703,7 +731,7 @@ def c15c(F, R):
         if guard is None:
             R.bad(f"{name}|no-guard", f"{name}::import_file never answers FileAlreadyRead: a file that includes itself is imported without bound", f["sp"])
             continue
-        c = guard["cond"]
+        c = _resolve_named_cond(f, guard["cond"])
         key_fresh = False
         for mc in walk(c, pats=False):
             if mc.get("k") == "MethodCall" and mc["name"] in ("insert", "contains_key", "get", "contains") and mc["args"]:
@@ -736,6 +764,12 @@ def c15c(F, R):
                     if a_.get("k") == "Assign" and any(g_.get("k") == "MethodCall" and g_["name"] in ("get", "get_mut") and ekey(g_["recv"]).startswith("self.") for g_ in walk(a_["r"], pats=False)) \
                             and any(x.get("k") == "Path" and x.get("res") == ekey(a_["l"]) for x in walk(a_["r"], pats=False)):
                         walks_parents = True
+        # `std::iter::successors(parent, |id| self.<parents>.get(id).copied())` is the same walk, written as an iterator
+        for sc_ in walk(c, pats=False):
+            if sc_.get("k") == "Call" and short(callee_of(sc_) or "") == "successors" and len(sc_["args"]) == 2:
+                clb = peel(sc_["args"][1])
+                if clb.get("k") == "Closure" and any(g_.get("k") == "MethodCall" and g_["name"] in ("get", "get_mut") and ekey(g_["recv"]).startswith("self.") for g_ in walk(clb.get("body") or {}, pats=False)):
+                    walks_parents = True
         if not key_fresh and uses_path and table_ops and not walks_parents:
             R.bad(f"{name}|seen-before", f"{name}::import_file answers FileAlreadyRead when the path is anywhere in `{ekey(table_ops[0]['recv'])}` (every file read so far), not when it is one of the files that are currently being included: a file included twice, or reached through two branches of an include tree, is rejected as a cycle and its second copy is not analysed", loc(guard))
             continue
@@ -1229,6 +1263,9 @@ def pipeline(F, f, inline):
             seq.append(("from_displayable", None))
         elif (dc.endswith("convert::From::from") or dc.endswith("::from")) and "DiagnosticItem" in (n.get("ty") or ""):
             seq.append(("DiagnosticItem::from", None))
+        elif n.get("k") in ("MethodCall", "Call") and any(peel(a_).get("k") == "Path" and (peel(a_).get("res") or "").endswith("::from") and "DiagnosticItem" in (peel(a_).get("res") or "") + (peel(a_).get("ty") or "") for a_ in n.get("args", [])):
+            # `.map(DiagnosticItem::from)`: the conversion passed as a function value
+            seq.append(("DiagnosticItem::from", None))
         elif n.get("k") == "MethodCall" and n["name"] == "sort" and "DiagnosticItem" in (n["recv"].get("ty", "") + n["recv"].get("aty", "")):
             seq.append(("sort", None))
         elif n.get("k") == "MethodCall" and n["name"] in LOSES - {"push", "extend", "append", "insert"} and "DiagnosticItem" in (n["recv"].get("ty", "") + n["recv"].get("aty", "")):
@@ -1393,6 +1430,15 @@ def c18e(F, R):
                             conds.append(x["cond"])
                     txt = " ".join(ekey(c) for c in conds)
                     allc = [y for c in conds for y in walk(c, pats=False)]
+                    # conditions may be spelled through named locals (`let in_other_file = ..; if in_other_file && ..`)
+                    lets_all = {s_["pat"]["name"]: s_ for s_ in walk(f["hir"]["value"], pats=False) if s_.get("k") == "Let" and s_["pat"].get("k") == "PBinding" and s_.get("init") is not None}
+                    for _ in range(3):
+                        extra = [y for z in allc if z.get("k") == "Path" and z.get("res_kind") == "Local" and z.get("res") in lets_all for y in walk(lets_all[z["res"]]["init"], pats=False)]
+                        seen_ids = {id(y) for y in allc}
+                        extra = [y for y in extra if id(y) not in seen_ids]
+                        if not extra:
+                            break
+                        allc += extra
                     sel = any(y.get("k") == "Field" and y.get("name") == "all_files" for y in allc) and \
                         any(y.get("k") == "MethodCall" and y["name"] == "get_base_file" for y in allc) and \
                         any(y.get("k") == "Field" and y.get("name") == "file" for y in allc)
@@ -1545,7 +1591,7 @@ def c18h(F, R):
             R.bad("first-non-blank|shape", "UNEXTRACTABLE: format_region no longer looks for the first non-blank character of the line", g["sp"])
 
 
-@rule("C18", "C18.i.what-is-formatted-is-printed", floor=3)
+@rule("C18", "C18.i.what-is-formatted-is-printed", floor=2)
 def c18i(F, R):
     """in each printer the text produced for a diagnostic is written to the output on the path that produced it: the result of `format_item` / `format_item_compact` / the JSON text flows into a `print!`; a formatter whose result is dropped makes one output channel silent while the others still report"""
     impls = [i for i in F.impls if (i.get("trait") or "").split("::")[-1] == "ErrorDisplay"]
@@ -1576,8 +1622,8 @@ def c18i(F, R):
                 continue
             if not any(p_ in ("format_item", "format_item_compact", "to_string_pretty") for p_ in producers):
                 continue
-            n += 1
-            key = f"{name}|{st['pat']['name']}|{[p_ for p_ in producers if p_ in ('format_item', 'format_item_compact', 'to_string_pretty')][0]}"
+            n += len({p_ for p_ in producers if p_ in ("format_item", "format_item_compact", "to_string_pretty")})
+            key = f"{name}|{st['pat']['name']}|{'+'.join(sorted({p_ for p_ in producers if p_ in ('format_item', 'format_item_compact', 'to_string_pretty')}))}"
             if (st["pat"]["name"], st["pat"].get("lid")) in printed or (st["pat"].get("lid") is None and any(n_ == st["pat"]["name"] for n_, _ in printed)):
                 R.ok(key, detail="formatted, then printed", where=loc(st))
             else:
@@ -1599,11 +1645,21 @@ def c18j(F, R):
         R.bad("shape", f"UNEXTRACTABLE: expected one `if <file test && all_files test> {{ .. continue }}` in PrettyPrint::display_errors, found {len(ifs)}", g["sp"])
         return
 
+    lets_j = {s_["pat"]["name"]: s_ for s_ in walk(body, pats=False) if s_.get("k") == "Let" and s_["pat"].get("k") == "PBinding" and s_.get("init") is not None}
+
     def classify(e):
         if e.get("k") == "Field" and e["name"] == "all_files":
             return "all"
         if e.get("k") == "Binary" and e["op"] in ("Eq", "Ne") and any(x.get("k") == "Field" and x["name"] == "file" for x in walk(e, pats=False)) and not any(x.get("k") == "Field" and x["name"] == "all_files" for x in walk(e, pats=False)):
             return "same" if e["op"] == "Eq" else "differs"
+        if e.get("k") == "Path" and e.get("res_kind") == "Local" and e.get("res") in lets_j:
+            # `let in_other_file = base.is_some_and(|b| err.file != b)`: one comparison of the file ids, nothing negated around it
+            init = lets_j[e["res"]]["init"]
+            cmps = [x for x in walk(init, pats=False) if x.get("k") == "Binary" and x["op"] in ("Eq", "Ne") and any(y.get("k") == "Field" and y["name"] == "file" for y in walk(x, pats=False))]
+            negs = [x for x in walk(init, pats=False) if x.get("k") == "Unary" and x["op"] == "Not"]
+            wraps = {m_["name"] for m_ in walk(init, pats=False) if m_.get("k") == "MethodCall"} - {"get_base_file", "is_some_and", "map_or", "clone", "copied"}
+            if len(cmps) == 1 and not negs and not wraps and not any(x.get("k") == "Field" and x["name"] == "all_files" for x in walk(init, pats=False)):
+                return "same" if cmps[0]["op"] == "Eq" else "differs"
         return None
     wrong = []
     try:
